@@ -131,7 +131,9 @@ func (r *Rng) renderText(s string, inAttr bool, quote byte) string {
 		// (also a CDATA section holding nothing but an interior blank: a white-space-only token in
 		// the middle of a character-data run)
 		blankInside := (rs[i] == ' ' || rs[i] == '\t' || rs[i] == '\n') && i > 0 && i < len(rs)-1
-		if !inAttr && (r.P(8) || (blankInside && r.P(25))) {
+		// (very long texts are not cut into CDATA sections: the decoder - and its model -
+		// re-processes the whole run on every token)
+		if !inAttr && len(rs) < 4000 && (r.P(8) || (blankInside && r.P(25))) {
 			n := 1 + r.Intn(6)
 			if blankInside && r.P(60) {
 				n = 1
@@ -244,8 +246,8 @@ type XGen struct {
 }
 
 var xmlNames = []string{"a", "b", "c", "item", "k", "A", "Item", "a-b", "x_y", "list", "n1", "a.b", "a-b-c", "X-y-Z"}
-var xmlAttrNames = []string{"id", "x", "a", "Type", "data-v", "k", "lang", "data-v-2"}
-var xmlTexts = []string{"hello", "x<y", "R&D", "\"q\"", "it's", "]]>", "&amp;", "&#x41;", "a b", " pad ", "1", "3.5", "true", "<![CDATA[", "é", "日本", "&", "<", ">", "-5", "tRuE", "NaN", "1e3", "0x1F", "\ttab", "a&b<c>d\"e'f", "x]]", "&lt;tag&gt;", "00", "T", "f", "1e19", "18446744073709551616", "-3e25", "1000000", "1e6", "9007199254740993", "0.1", "1e-7", "a  b", "l1\nl2", "x \t y"}
+var xmlAttrNames = []string{"id", "x", "a", "Type", "data-v", "k", "lang", "data-v-2", "ID"}
+var xmlTexts = []string{"hello", "x<y", "R&D", "\"q\"", "it's", "]]>", "&amp;", "&#x41;", "a b", " pad ", "1", "3.5", "true", "<![CDATA[", "é", "日本", "&", "<", ">", "-5", "tRuE", "NaN", "1e3", "0x1F", "\ttab", "a&b<c>d\"e'f", "x]]", "&lt;tag&gt;", "00", "T", "f", "1e19", "18446744073709551616", "-3e25", "1000000", "1e6", "9007199254740993", "0.1", "1e-7", "a  b", "l1\nl2", "x \t y", "+12.5", "+3", "C:\\tmp\\", "a\\b"}
 
 func (r *Rng) xmlNode(g *XGen, depth int) *XNode {
 	n := &XNode{Kind: 'N', Name: r.Pick(g.Names)}
@@ -359,6 +361,27 @@ func (r *Rng) xmlNode(g *XGen, depth int) *XNode {
 // xmlDoc generates a root element; namespace declarations go on the root.
 func (r *Rng) xmlDoc(g *XGen) *XNode {
 	root := r.xmlNode(g, 0)
+	if r.P(3) && r.Bool() {
+		// one LARGE part: text beyond 64 KB, thousands of siblings, a long attribute value, or a
+		// deep chain of elements
+		name := r.Pick(g.Names)
+		switch r.Intn(4) {
+		case 0:
+			root.Kids = append(root.Kids, &XNode{Kind: 'N', Name: name, Kids: []*XNode{{Kind: 'T', Text: r.bigString(66000 + r.Intn(9000))}}})
+		case 1:
+			for i := 0; i < 300+r.Intn(400); i++ {
+				root.Kids = append(root.Kids, &XNode{Kind: 'N', Name: r.Pick([]string{name, "zz"}), Kids: []*XNode{{Kind: 'T', Text: fmt.Sprintf("w%d", i)}}})
+			}
+		case 2:
+			root.Kids = append(root.Kids, &XNode{Kind: 'N', Name: name, Attrs: []XAttr{{Name: "big", Value: r.bigString(20000)}}})
+		default:
+			cur := &XNode{Kind: 'N', Name: name, Kids: []*XNode{{Kind: 'T', Text: "deep"}}}
+			for i := 0; i < 40+r.Intn(40); i++ {
+				cur = &XNode{Kind: 'N', Name: r.Pick([]string{"a", "b"}), Kids: []*XNode{cur}}
+			}
+			root.Kids = append(root.Kids, cur)
+		}
+	}
 	if g.Namespaces {
 		decl := []XAttr{}
 		for _, p := range []string{"ns", "p"} {
@@ -482,7 +505,24 @@ func (r *Rng) decOpt(castOn bool) DecOpt {
 		o.ToInt, o.ToFloat, o.ToBool, o.NanInf = r.P(40), r.P(75), r.P(75), r.P(30)
 		if r.P(25) {
 			o.SkipSet = true
-			o.Skip = []string{r.Pick(xmlNames), o.AttrPrefix + r.Pick(xmlAttrNames), o.textK()}[:1+r.Intn(3)]
+			fold := func(s string) string {
+				if o.Lower {
+					s = strings.ToLower(s)
+				}
+				if o.Snake {
+					s = strings.ReplaceAll(s, "-", "_")
+				}
+				return s
+			}
+			// the skip function is asked about keys as they are stored (folded when folding is on)
+			an := r.Pick(xmlAttrNames)
+			if r.Bool() {
+				an = r.Pick([]string{"Type", "ID", "data-v"}) // names that folding changes
+			}
+			o.Skip = []string{fold(r.Pick(xmlNames)), o.AttrPrefix + fold(an), o.textK()}[:1+r.Intn(3)]
+			if r.Bool() {
+				o.Skip[0], o.Skip[len(o.Skip)-1] = o.Skip[len(o.Skip)-1], o.Skip[0]
+			}
 		}
 	}
 	return o
